@@ -85,10 +85,12 @@ CLAIMED = {
     "C07": dict(
         category="proof",
         text="Integer range checks of index and slice selectors proved for symbolic limits (all configurations at once); singular-query classification proved against the RFC definition over the selector-class enumeration. "
-        "Acceptance of every well-typed query and rejection of every ill-typed one (one broken rule at every logical position) are bounded (monitors/c07.py).",
+        "The typing rules of section 2.4.3 are proved on the three functions that implement them: check_well_typedness accepts a call of each standard function exactly when arity and every argument's kind fit the declared parameter type (literal / singular or other query / logical expression / function of each declared result type; singularity symbolic), "
+        "_raise_for_uncompared refuses exactly literals and ValueType results in test position, _raise_for_non_comparable_function exactly non-singular queries and non-ValueType results - against an independent statement of the rules (specs/typing9535.py). "
+        "That the parser calls them at every logical position, and acceptance / rejection of whole queries, are bounded (monitors/c07.py).",
         ref="5/C07",
-        technique=TECH + "proof by cases over the finite selector class hierarchy; bounded well-typed / ill-typed expression universes for the parser",
-        note=TRUST + "The function-typing decision functions (check_well_typedness) are covered by the bounded part only.",
+        technique=TECH + "proof by cases over the finite selector / expression class hierarchy (each case symbolic in its contents); bounded well-typed / ill-typed expression universes for the parser",
+        note=TRUST + "The case split over argument kinds is exhaustive for the five standard functions; LogicalType parameters (none of the five has one) are outside the statement's quantifier.",
     ),
     "C09": dict(
         category="proof",
@@ -109,7 +111,7 @@ CLAIMED = {
         category="proof",
         text="JSONPath.finditer proved equal to the fold of resolve over the segments from the root node (fake root, filter context default, load_data); findall == values(finditer), match == first(finditer); the environment-level forms proved to delegate to compile().method with the same arguments. "
         "Compound queries: findall / finditer / match and their async twins proved equal to the left-to-right union / intersection of the operands' results for ANY number of operands (fold rule over the operand loop, operands abstract); "
-        "that find-all is the values of find-iter for compound queries is the list lemma values_of_compound, re-checked by Lean on every run. JSON text and readable-file documents proved to give what the parsed value gives (simple and compound queries; a file is read once). "
+        "that find-all is the values of find-iter for compound queries is the list lemma values_of_compound, re-checked by Lean on every run. JSON text and readable-file documents proved to give what the parsed value gives (simple and compound queries; a file is read once); the environment-level forms hand a file-like document on unread. "
         "Query objects and the whole pipeline end to end are bounded (monitors/c11.py).",
         ref="5/C11",
         technique=TECH + "fold rule for the segment pipeline and the operand loop (branching step, element invariants), modular finditer contract, Lean-checked list lemma; bounded differential run of all entry points",
